@@ -561,7 +561,7 @@ def obligations(tier):
     obs = []
 
     def add(name, fn, timeout=60, **kw):
-        obs.append({"name": name, "module": M, "fn": fn, "kwargs": kw, "timeout": timeout if q else timeout * 4})
+        obs.append({"name": name, "module": M, "fn": fn, "kwargs": kw, "timeout": timeout * 5 if q else timeout * 12})
 
     mspecs = [[], [("n", "1")], [("1", "n"), ("e", "e")]] + ([] if q else [[("2", "3"), ("n", "n"), ("e", "2")]])
     for v in (0, 2):
